@@ -1,0 +1,16 @@
+//go:build verif
+
+// Contracts for the gvc verifier (see /verif/DESIGN.md). Comment-only file: it adds no code.
+package keyproof
+
+//@ # CanProve is the gate of the key-correctness proof. "complete" is the lemma that the congruences GenerateKeyPair
+//@ # establishes (P' mod 8 != 1, Q' mod 8 != 1, P mod 8 != Q mod 8) are enough for it, for odd P', Q' whose doubles plus
+//@ # one pass the safe-prime test; "sound" lists what a true verdict says.
+//@ func CanProve
+//@   property C16
+//@   safety
+//@   requires Pprime != nil && Qprime != nil
+//@   ensures sound: result ==> rem(2 * val(Pprime) + 1, 8) != 1 && rem(2 * val(Qprime) + 1, 8) != 1 && rem(val(Pprime), 8) != 1 && rem(val(Qprime), 8) != 1 && rem(2 * val(Pprime) + 1, 8) != rem(2 * val(Qprime) + 1, 8) && rem(val(Pprime), 8) != rem(val(Qprime), 8)
+//@   ensures[C16] complete: val(Pprime) > 0 && val(Qprime) > 0 && rem(val(Pprime), 2) == 1 && rem(val(Qprime), 2) == 1 && isprime(2 * val(Pprime) + 1) && isprime(val(Pprime)) && isprime(2 * val(Qprime) + 1) && isprime(val(Qprime)) && rem(val(Pprime), 8) != 1 && rem(val(Qprime), 8) != 1 && rem(2 * val(Pprime) + 1, 8) != rem(2 * val(Qprime) + 1, 8) ==> result
+//@   modifies nothing
+//@   mustfail canary: !result
